@@ -100,7 +100,7 @@ def gen_stack_cases(rng, tier):
             c["zmtp2"] = rng.choice([0, 1])
         pieces, authed, _ = attacker_stream(rng, c, know_creds=False)
         stream = b"".join(pieces) + E.frame(b"after-auth-attempt")
-        cuts = E.W.cuts_str(E.W.random_cuts(rng, len(stream))) if rng.random() < 0.5 else "-"
+        cuts = E.few_cuts(rng, len(stream)) if rng.random() < 0.5 else "-"
         cases.append(["rawpeer %s %s %s" % (E.cfg_str(c), E.hexspec(stream), cuts)])
     # positive control: the right credentials do get through (keeps the scenario honest)
     c = {"role": "s", "type": "PULL", "plain": 1, "sec": 1, "user": "h75736572", "pass": "h70617373"}
